@@ -38,7 +38,7 @@ ASSUMPTIONS = ["crash = Python-level interruption at a statement boundary, or os
                "stale but valid files of an earlier run (e.g. an old lf.cbin beside a fresh lf.bin) are not a violation: the property asks for a complete, valid set",
                "after the original has been deleted by a verified run the history ends (there is no input left to hand to the converter)"]
 REQUIRED = {"reused_converter_runs": 12, "torn_header_histories": 2, "crash_points_fired": 40, "distinct_crash_sites": 30, "history_steps": 60, "remove_original_judged": 3, "idempotence_checked": 8,
-            "completeness_checked": 20, "recoverability_checked": 100, "corruptions_injected": 12, "originals_with_inconsistent_metadata": 5, "compression_faults_injected": 12, "long_rebuilds": 1}
+            "completeness_checked": 20, "recoverability_checked": 100, "corruptions_injected": 12, "originals_with_inconsistent_metadata": 5, "compression_faults_injected": 12, "long_rebuilds": 1, "long_rebuilds_rate_above_nominal": 1}
 CASE_TIMEOUT = 60.0
 MAX_PROCS = 14
 WINDOW = 1200
@@ -501,9 +501,14 @@ def run_case(case):
         ns = int(rng.integers(60001, 72000))
         if ns % 60000 == 0:
             ns += 7
-        b, rec = np2.build(rng, root, kind="NP2.4", ns=ns, content="random", gain=np2.GAIN_PAIRS[int(rng.integers(0, 4))])
+        # headers carry the CALIBRATED rate of the probe's clock (round 20): a few tenths of a hertz off the nominal 30 kHz, which over a recording of
+        # this length amounts to about one sample - the recording is still the samples the file holds
+        fs = (30000.390639481, 30000.62, 29999.757983, 30000.0)[case["seed"] % 4] if ns * (1 - 30000 / 30000.390639481) >= 0.6 else 30000.62
+        if fs > 30000 and ns * (1 - 30000 / fs) >= 0.5:
+            res.count("long_rebuilds_rate_above_nominal")
+        b, rec = np2.build(rng, root, kind="NP2.4", ns=ns, content="random", gain=np2.GAIN_PAIRS[int(rng.integers(0, 4))], fs=fs)
         orig = b.read_bytes()
-        label = f"NP2.4 ns={ns} compress={case['compress']} post_check + delete_original, then NP2Reconstructor"
+        label = f"NP2.4 ns={ns} imSampRate={fs} compress={case['compress']} post_check + delete_original, then NP2Reconstructor"
         try:
             conv = neuropixel.NP2Converter(b, post_check=True, compress=case["compress"], delete_original=True)
             st = conv.process()
